@@ -108,6 +108,7 @@ def parseTok (tok : String) : Option (Ev × Option Cb) :=
 
 structure Parsed where
   vm : String := "sum"
+  churn : Nat := 0                   -- `churn=<n>` (C19): n short-lived outermost scopes before the events
   evs : List (Ev × Option Cb) := []
 
 def parseCase (line : String) : Option Parsed := do
@@ -115,6 +116,8 @@ def parseCase (line : String) : Option Parsed := do
   for tok in Driver.words line do
     if tok.startsWith "vm=" then
       p := { p with vm := (tok.drop 3).toString }
+    else if tok.startsWith "churn=" then
+      p := { p with churn := ← (tok.drop 6).toString.toNat? }
     else
       let e ← parseTok tok
       p := { p with evs := p.evs ++ [e] }
@@ -216,6 +219,10 @@ def logsCase (line : String) : String :=
   match parseCase line with
   | none => "bad-case"
   | some p =>
+    -- every scope has its own identifier and every outermost scope without a given trace id a fresh one
+    -- (`Haiway.C19.identifier_unique`, `fresh_trace_unique`): n distinct ones, none shared with later scopes
+    (fun rest => if p.churn = 0 then rest else
+        (s!"C{p.churn}/{p.churn}/{p.churn}/0" ++ (if rest.isEmpty then "" else " " ++ rest))) <|
     runAll p
       (fun _ _ => "")
       (fun k ev before after => match ev with
